@@ -49,6 +49,9 @@ META = {
                                                   "(hyper3) and the 5-tensor hyperstar; lazy: 3 sites with inner tensors / a double bond",
             "2-norm receivers (states with physical labels)": "path of 3 (D2BP), 3 lazy sites with an inner tensor / a double bond (L2BP), "
                                                               "pair for gauging / compression",
+            "open legs / isolated parts": "hyper flavours: trees with labels on exactly one tensor (on a leaf, on an inner tensor, several, next "
+                                          "to a hyper label) and forests with a bond-free tensor with open legs / a scalar tensor; every flavour: "
+                                          "forests with an isolated scalar tensor / isolated site (physical label only, inner bonds only, scalar)",
             "dimensions": "bond 2, physical 1-2",
             "entries": "strictly positive symbols (every flavour, value + messages + marginals); signed real and complex symbols "
                        "(messages, marginals, local values; contract() where listed under thorough/outside)",
@@ -80,6 +83,10 @@ META = {
         "numeric-only supplement for contract_gloop_expand, the others not covered",
         "D2BP power != 1 / smudge != 0 message conditioning, D2BP.gate_, truncating compressions (approximate by design)",
         "bond dimension 3 for the hyper / lazy / 2-norm flavours (sizes of the cleared polynomials)",
+        "open legs under D1BP (documented: no dangling indices; KeyError) and L1BP (site values are formed without output labels; "
+        "TypeError); compute_tensor_marginal of a tensor with a label of its own and L2BP.partial_trace of an isolated site raise "
+        "(TypeError / KeyError): rejections, noted, no value to compare",
+        "contract() value goals with several open legs in symbolic mode (expanded product of > 10 region values): numeric-only there",
     ],
     "assumptions": [
         "every quantity a message is normalised by and every local region value is non-zero (divisions; generic data)",
@@ -1563,7 +1570,21 @@ for g_ in ("open_leaf", "open_inner", "open_multi", "open_hyper", "iso_open", "i
             _OI.append({"flavour": f_, "geom": g_, "update": up_, "kind": k_, "_tiers": _Q if quick else _T})
 
 
-@obligation(PROP, params=_OI, wall_s=400, timeout_s=500)
+def run_rounds(mk, bp, rounds, info, get_messages, cap=4000):
+    """bp.run one round at a time (run() may be called repeatedly; with tol = 0 this is the same computation as a single run of
+    `rounds` rounds).  Symbolic mode: stop as soon as the messages, taken together, exceed `cap` polynomial terms -- messages on a
+    tree settle to small closed forms, messages that keep changing grow with every round; info['max_mdiff'] of the last round
+    performed is then non-zero and the convergence goal fails."""
+    for _ in range(rounds):
+        bp.run(max_iterations=1, tol=0.0, info=info)
+        if mk.sym:
+            size = sum(len(P.lift(v).t) for m in get_messages().values() for v in np.asarray(m).reshape(-1))
+            if size > cap and info["max_mdiff"] != 0.0:
+                mk.note(f"stopped after a round with {size} message terms (still changing)")
+                break
+
+
+@obligation(PROP, params=_OI, wall_s=150, timeout_s=200)
 def open_and_isolated(mk, flavour, geom, update, kind):
     """hyper flavours on trees with open legs (labels on exactly one tensor: the value sums over them, the message a lone
     label returns is uniform) and on forests with an isolated tensor (bond-free with open legs / a scalar): value, messages in
@@ -1580,7 +1601,8 @@ def open_and_isolated(mk, flavour, geom, update, kind):
     mk.same("receiver has a label on exactly one tensor or a label-free tensor",
             any(len(ts) == 1 for ts in fg.ind_map.values()) or any(not inds for _, inds in fg.terms.values()), True)
     Z = fg.z()
-    ro = run_opts(mk, tn, hyper=True)
+    # one round moves information two steps of the incidence graph (labels, then tensors): #tensors + 2 rounds suffice on a tree
+    ro = dict(max_iterations=tn.num_tensors + 2, tol=0.0)
     # every open leg adds a label region and a message-pair region whose values are (normalisers times) the full value: with
     # several open legs the expanded product of all region values is out of reach -> value goals numeric-only there, messages
     # and marginals stay symbolic
@@ -1588,29 +1610,32 @@ def open_and_isolated(mk, flavour, geom, update, kind):
     if heavy:
         mk.note("several open legs: contract() value goals are numeric-only (expanded product of > 10 region values); "
                 "messages and marginals are symbolic")
+    info = {}
     if flavour == "HD1BP":
         kw = dict(normalize=nl1 if kind == "pos" else nsum, distance=sdist, update=update, smudge_factor=0.0)
-        if not heavy:
-            mk.eq(f"contract_hd1bp({geom}, update={update}) == exact value (open legs summed)", hd1bp.contract_hd1bp(tn, **kw, **ro), Z)
         bp = hd1bp.HD1BP(tn, **kw)
-        info = {}
-        bp.run(info=info, **ro)
+        run_rounds(mk, bp, ro["max_iterations"], info, lambda: bp.messages)
         msgs = bp.messages
     else:
         kw = dict(normalize=l1_batched if kind == "pos" else nsum_batched, distance=sdist, smudge_factor=0.0)
         init = bp_common.initialize_hyper_messages(tn, smudge_factor=0.0)
-        if not heavy:
-            mk.eq(f"contract_hv1bp({geom}) == exact value (open legs summed)", hv1bp.contract_hv1bp(tn, messages=dict(init), **kw, **ro), Z)
         bp = hv1bp.HV1BP(tn, messages=dict(init), **kw)
-        info = {}
-        bp.run(info=info, **ro)
+        run_rounds(mk, bp, ro["max_iterations"], info, bp.get_messages_dense)
         msgs = bp.get_messages_dense()
-        if not heavy:
-            mk.eq("HV1BP.contract_dense() == exact value", bp.contract_dense(), Z)
     converged_goal(mk, "last round changed nothing (max_mdiff == 0)", info)
+    if mk.sym and info["max_mdiff"] != 0.0:
+        # the goal above has failed on this path (messages that keep changing keep growing as expressions): the numeric replay of
+        # this harness evaluates every remaining goal; nothing more is added symbolically
+        mk.note("messages did not reach a fixed point within #tensors + 2 rounds: remaining goals left to the numeric replay")
+        return
     hyper_messages_exact(mk, msgs, bp.tn, fg, flavour)
     if not heavy:
         mk.eq(f"{flavour}.contract() == exact value", bp.contract(), Z)
+        if flavour == "HD1BP":
+            mk.eq(f"contract_hd1bp({geom}, update={update}) == exact value (open legs summed)", hd1bp.contract_hd1bp(tn, **kw, **ro), Z)
+        else:
+            mk.eq(f"contract_hv1bp({geom}) == exact value (open legs summed)", hv1bp.contract_hv1bp(tn, messages=dict(init), **kw, **ro), Z)
+            mk.eq("HV1BP.contract_dense() == exact value", bp.contract_dense(), Z)
     marginal_goals(mk, bp.tn, msgs, fg, flavour)
     if not mk.sym:
         if flavour == "HD1BP":
